@@ -22,6 +22,7 @@ def step (s : St) (line : String) : St × String :=
   | "adm" :: rest => let (a, o) := admStep s.adm rest; ({ s with adm := a }, o)
   | "utl" :: rest => let (a, o) := utlStep s.utl rest; ({ s with utl := a }, o)
   | "ses" :: rest => let (a, o) := sesStep s.ses false rest; ({ s with ses := a }, o)
+  | "sesq" :: rest => let (a, o) := sesqStep s.ses rest; ({ s with ses := a }, o)
   | "sesw" :: rest => let (a, o) := seswStep s.ses rest; ({ s with ses := a }, o)
   | "ses+" :: rest => let (a, o) := sesStep s.ses true rest; ({ s with ses := a }, o)
   | "cors" :: rest => let (a, o) := corsStep s.cors rest; ({ s with cors := a }, o)
